@@ -381,7 +381,7 @@ var signatureTable = map[string]func(a aux) bool{
 			strings.Contains(p, "*[]uint16 as type *") || strings.Contains(p, "type *[]uint16 is not assignable to type *") || strings.Contains(p, "cannot use []uint16 as type")
 		named := strings.Contains(p, "using string as type c02.NamedKey") || strings.Contains(p, "type string is not assignable to type c02.NamedKey")
 		if u16 {
-			return strings.HasPrefix(a["source"], "u16-") || usesU16(a) || strings.Contains(a["src"], "fromCharCode")
+			return strings.HasPrefix(a["source"], "u16-") || strings.HasPrefix(a["source2"], "u16-") || usesU16(a) || strings.Contains(a["src"], "fromCharCode")
 		}
 		return named && a["source"] != ""
 	},
@@ -401,6 +401,76 @@ var signatureTable = map[string]func(a aux) bool{
 	// NEW (C02-context-throwing-getter.diff)
 	"c02-context-throwing-getter": func(a aux) bool {
 		return a["action"] == "Context" && a["mutation"] == "accessor-throws" && strings.HasPrefix(a["target"], "this.") && a["class"] == "*otto.exception"
+	},
+
+	// ---- round 6
+
+	"c02-sourcemap-dangling-index": func(a aux) bool {
+		return a["group"] == "sourcemap" && a["class"] == "index-out-of-range" && a["site"] == "file.(*File).Position"
+	},
+
+	"c02-uncaught-throw-unstringable": func(a aux) bool {
+		return strings.HasPrefix(a["body"], "throw-") && a["class"] == "*otto.exception" && a["phase"] == "call"
+	},
+
+	"c02-apply-huge-arguments": func(a aux) bool {
+		return a["group"] == "apply-huge" && a["phase"] == "fatal" && a["class"] == "out-of-memory" && a["site"] == "builtinFunctionApply"
+	},
+
+	"c02-replace-invalid-utf8": func(a aux) bool {
+		return a["site"] == "builtinStringReplace" && a["via"] == "regexp.MustCompile" && a["class"] == "string" &&
+			(strings.HasPrefix(a["source"], "host-invalid-utf8") || strings.HasPrefix(a["source2"], "host-invalid-utf8")) && strings.Contains(a["panic"], "invalid UTF-8")
+	},
+
+	"c02-parser-error-explosion": func(a aux) bool {
+		return a["construct"] == "label-duplicate" && a["depth"] == "4000" && a["phase"] == "fatal" && a["class"] == "hang"
+	},
+
+	"c02-parser-deep-nesting": func(a aux) bool {
+		return in(a["construct"], "array", "paren", "not") && a["depth"] == "1000000" && a["route"] == "Run" && a["phase"] == "fatal" && a["class"] == "stack-overflow" &&
+			(strings.HasPrefix(a["site"], "parser.") || strings.Contains(a["site"], "cmpl") || strings.Contains(a["site"], "compiler"))
+	},
+
+	"c02-bridged-nil-func-callback-throw": func(a aux) bool {
+		if a["site"] == "(*runtime).toValue.func1" && a["class"] == "string" && strings.Contains(a["panic"], "reflect.Value.Call: call of nil function") {
+			return strings.Contains(a["sink"], "fNilFunc") || strings.Contains(a["sink"], "st.Fn") || in(a["bridged"], "nilfunc", "funcstruct", "funcslice")
+		}
+		return a["site"] == "(*runtime).convertCallParameter.func2" && a["class"] == "error(*errors.errorString)" &&
+			(strings.Contains(a["sink"], "throw") || a["op"] == "set-function")
+	},
+
+	"c02-bridged-store-conversion": func(a aux) bool {
+		if !in(a["bridged"], "ptrslice", "funcslice", "anyslice", "structslice", "mapslice", "funcstruct", "struct") {
+			return false
+		}
+		p := a["panic"]
+		switch a["site"] {
+		case "Value.toReflectValue":
+			return a["class"] == "error(*errors.errorString)" && strings.Contains(p, "invalid conversion of")
+		case "(*goSliceObject).setValue":
+			return strings.Contains(p, "call of reflect.Value.Set on zero Value") || strings.Contains(p, "reflect.Set: value of type") && strings.Contains(p, "is not assignable to type")
+		case "goMapDefineOwnProperty":
+			return strings.Contains(p, "reflect.Value.SetMapIndex: value of type") && strings.Contains(p, "is not assignable to type")
+		}
+		return false
+	},
+
+	"c02-bridged-map-key-kinds": func(a aux) bool {
+		if a["site"] == "stringToReflectValue" && in(a["bridged"], "ifacemap", "structmap") {
+			return strings.Contains(a["panic"], "invalid conversion of") && (strings.HasSuffix(a["panic"], "to reflect.Kind: interface") || strings.HasSuffix(a["panic"], "to reflect.Kind: struct"))
+		}
+		return a["bridged"] == "nilmap" && a["site"] == "goMapDefineOwnProperty" && strings.Contains(a["panic"], "assignment to entry in nil map")
+	},
+
+	"c02-bridged-struct-members": func(a aux) bool {
+		if a["bridged"] == "embednil" && a["site"] == "goStructObject.getValue" {
+			return strings.Contains(a["panic"], "indirection through nil pointer to embedded struct")
+		}
+		return in(a["bridged"], "structval", "structslice") && a["site"] == "goStructObject.setValue" && strings.Contains(a["panic"], "reflect.Value.Set using unaddressable value")
+	},
+
+	"c02-named-bool-param": func(a aux) bool {
+		return a["site"] == "(*runtime).toValue.func1" && strings.Contains(a["panic"], "using bool as type c02.NamedBool") && strings.Contains(a["sink"], "fNamedBool")
 	},
 }
 
